@@ -200,6 +200,24 @@ def answer (toks : List String) : String :=
     match quantileAt l (rateK (rat! rr) l.length) with
     | none => "raise:IndexError"
     | some t => showV t
+  | ["adaptsn", net, m, mv, e, k, ord, sn, ts] =>
+    -- round 5: adaptive plot / network with the neighbour table NumPy produced (ties in any
+    -- order); the table must be an argsort of the model's (with `missing_values`: masked)
+    -- distance rows.  `net`: `p` plot, `0` RecurrenceNetwork constructor, `1` its setter
+    match stateVectors (vMat ts) (emb? e) with
+    | .ok emb =>
+      let table := natMat sn
+      let missing := mv == "1"
+      if !argsortOK (adaptiveDist (metric? m) emb missing) table then "not-an-argsort" else
+      let r := adaptivePlotMV (metric? m) emb k.toNat! (if ord == "-" then none else some (nats ord))
+        table missing
+      if net == "p" then showRes showPlot r
+      else showRes showNet (r.bind fun p =>
+        let A := adjacencyOf p.R (rnStrideOf (net == "1") "a:" p.N)
+        let A := if missing && net == "0" then deleteMasked A (missingMask emb) else A
+        .ok ⟨A, p.R, A.length⟩)
+    | .valueError => "raise:ValueError"
+    | .indexError => "raise:IndexError"
   | ["adaptive", n, k, sn, order] =>
     match adaptive n.toNat! k.toNat! (natMat sn) (nats order) with
     | none => "raise:IndexError"
